@@ -526,7 +526,7 @@ func shapeSig(p *program) string {
 func oracle(r *hk.Run, p *program, o *observation) {
 	e := effectiveOf(p)
 	fail := func(sg, what string, got, want interface{}) {
-		r.Fail(hk.Failure{Sig: sg + "[" + shapeSig(p) + "]", What: what, Input: p, Got: got, Want: want})
+		failCapped(r, hk.Failure{Sig: sg + "[" + shapeSig(p) + "]", What: what, Input: p, Got: got, Want: want})
 	}
 	if o.Panicked != "" {
 		fail("run:panic", "the call panicked or hung", o.Panicked, nil)
